@@ -14,7 +14,9 @@ RULE = ("mutable types x values x 1-4 random tree positions replaced by bare sum
         "subtrees, chunk parents, zero padding, the contents root) x histories of reads (child views) and mutations on "
         "the partial view; after every command: error class (navigation / index / other) and root + encoding (or error "
         "class) of every held view vs the model; model-free: root unchanged by summarising, and every command either "
-        "gives the same result as on the complete tree or fails with a navigation / index error; "
+        "gives the same result as on the complete tree or fails with a navigation / index error, and at the end every "
+        "read path of every held view (len, index, slice, iter, readonly_iter, container iteration, to_obj) gives the "
+        "complete tree's answer or a navigation / index error; "
         "non-trivial = >= 1 summarised position that is not the root and >= 2 commands")
 
 
@@ -96,6 +98,27 @@ def gen_inputs(ctx):
         yield inp
 
 
+def read_paths(x, t):
+    """every way of reading a view's content (model-free): each must give the complete tree's answer or fail with a
+    navigation / index error on a partial tree"""
+    k = t[0] if t else None
+    out = {}
+    if k in ("vec", "list", "bitvec", "bitlist"):
+        conv = (lambda z: bool(z)) if k in ("bitvec", "bitlist") else (lambda z: bytes(z.hash_tree_root()))
+        out["len"] = att3(lambda: len(x))
+        out["iter"] = att3(lambda: [conv(z) for z in iter(x)])
+        if hasattr(x, "readonly_iter"):
+            out["readonly_iter"] = att3(lambda: [conv(z) for z in x.readonly_iter()])
+        out["index"] = att3(lambda: [conv(x[i]) for i in range(len(x))])
+        out["slice"] = att3(lambda: [conv(z) for z in x[0:len(x)]])
+    elif k == "cont":
+        out["iter"] = att3(lambda: [bytes(z.hash_tree_root()) for z in iter(x)])
+        out["fields"] = att3(lambda: [bytes(getattr(x, "f%d" % i).hash_tree_root()) for i in range(len(t[1]))])
+    if k is not None and hasattr(x, "to_obj"):
+        out["to_obj"] = att3(lambda: json.dumps(x.to_obj(), sort_keys=True, default=str))
+    return out
+
+
 def build(inp):
     t, v, gs, cmds = inp["t"], inp["v"], inp["gs"], inp["cmds"]
     full = to_py(t, v)
@@ -167,6 +190,17 @@ def build(inp):
                     why = "after command %d encoding fails with a %s error" % (k + 1, pe.tag)
                 elif not isinstance(pe, E) and pe != fe:
                     why = "after command %d a held view's encoding differs from the complete tree's" % (k + 1)
+    # every read path of every held view: the complete tree's answer, or a navigation / index error
+    if baseline and why is None and len(shf.views) == len(shp.views):
+        for j, (px, fx) in enumerate(zip(shp.views, shf.views)):
+            rp_, rf_ = read_paths(px, shp.types[j]), read_paths(fx, shf.types[j])
+            for name, got in rp_.items():
+                want = rf_.get(name)
+                if isinstance(got, E):
+                    if got.tag not in ("nav", "index") and not isinstance(want, E) and why is None:
+                        why = "view %d: %s fails on the partial tree with a %s error" % (j, name, got.tag)
+                elif got != want and why is None:
+                    why = "view %d: %s returns other data on the partial tree than on the complete tree" % (j, name)
     coq = "(%s, %s, %s, %s)" % (ty_coq(t), val_coq(t, v), clist(cN(g) for g in gs), clist(coq_cmds))
     names = ["P:summarised"] + ["P:step%d" % (i + 1) for i in range(kept)]
     c = Case(inp, coq, obs, names, nontrivial=(any(flags) and kept >= 2), kind=t[0])
